@@ -165,7 +165,7 @@ impl Scenario for Timed {
 pub fn scenarios(thorough: bool) -> Vec<Timed> {
     if thorough {
         vec![
-            Timed { slots: vec![30, 60, 90], symbols: vec!["nothing", "KeepAlive", "Have", "Choke", "Unchoke", "Request", "Interested"], intervals: 12, handshaken: true, outgoing: true },
+            Timed { slots: vec![30, 60, 90], symbols: vec!["nothing", "KeepAlive", "Have", "Choke", "Unchoke", "Request", "Interested"], intervals: 16, handshaken: true, outgoing: true },
             Timed { slots: vec![1, 119], symbols: vec!["nothing", "KeepAlive", "Have", "Interested", "Choke", "Unchoke"], intervals: 12, handshaken: true, outgoing: true },
             Timed { slots: vec![5, 15, 25, 115], symbols: vec!["nothing", "KeepAlive", "Have"], intervals: 8, handshaken: true, outgoing: true },
             Timed { slots: vec![30, 90], symbols: vec!["nothing", "Handshake", "KeepAlive", "Have", "Unchoke"], intervals: 8, handshaken: false, outgoing: true },
